@@ -32,8 +32,8 @@ ASSUMPTIONS = ['rename maps are {str: str} (what the choice editor sends); filte
                'of choice columns), or the empty string',
                'formula results that depend on X and summary tables keyed on X legitimately change and are not judged',
                'widgetOptions are documented as not touched by this action, so they are part of "nothing else"']
-BUDGET = {'quick': dict(examples=560, shards=8, max_seconds=60),
-          'thorough': dict(examples=9000, shards=16, max_seconds=480)}
+BUDGET = {'quick': dict(examples=1200, shards=8, max_seconds=60),
+          'thorough': dict(examples=16000, shards=16, max_seconds=480)}
 
 POOL = ['a', 'b', 'c', 'dd', '', 'zz', 'e', ' a', 'A']
 FPOOL = POOL + [1, None, True, 2.5, 'b', 'a']
